@@ -7,7 +7,8 @@ from typing import Dict, List, Optional, Set
 
 from ..astutil import arg_of, call_name, calls, enclosing_function, guards, kwarg, last_attr, stmt_key, txt, walk_local
 from ..cfg import CFG
-from ..flow import bound_from, provenance
+from ..flow import bound_from, fact_texts, provenance
+from .family_e import alpha
 from ..index import AnalysisError, dotted
 from ..kernel import OutsideFragment, affine, decide, parse, rename, straight_line_env
 from ..report import Ctx
@@ -76,13 +77,38 @@ def r04_1(ctx: Ctx) -> None:
         ctx.cannot("R04.1", LOC, ret, "location_contains_other", "base case", str(err))
 
 
+def _quantifier(stmts: List[ast.stmt]):
+    """ (kind, variable, iterated, element test) of `return any/all(<test> for v in it)` or of the equivalent loop
+        `for v in it: if <test>: return True` / `return False` (any), `if not <test>: return False` / `return True` (all) """
+    if len(stmts) == 1 and isinstance(stmts[0], ast.Return) and isinstance(stmts[0].value, ast.Call) \
+            and call_name(stmts[0].value) in ("any", "all") and stmts[0].value.args \
+            and isinstance(stmts[0].value.args[0], (ast.GeneratorExp, ast.ListComp)):
+        gen = stmts[0].value.args[0]
+        comp = gen.generators[0]
+        if len(gen.generators) == 1 and not comp.ifs:
+            return call_name(stmts[0].value), txt(comp.target), txt(comp.iter), gen.elt
+        return None
+    if len(stmts) == 2 and isinstance(stmts[0], ast.For) and isinstance(stmts[1], ast.Return) \
+            and isinstance(stmts[1].value, ast.Constant) and isinstance(stmts[1].value.value, bool) \
+            and len(stmts[0].body) == 1 and isinstance(stmts[0].body[0], ast.If) and not stmts[0].orelse:
+        loop, test = stmts[0], stmts[0].body[0]
+        if len(test.body) == 1 and isinstance(test.body[0], ast.Return) and isinstance(test.body[0].value, ast.Constant) \
+                and not test.orelse and test.body[0].value.value is (not stmts[1].value.value):
+            inner = test.test
+            if stmts[1].value.value is False:      # found one -> True, none -> False
+                return "any", txt(loop.target), txt(loop.iter), inner
+            negated = isinstance(inner, ast.UnaryOp) and isinstance(inner.op, ast.Not)
+            if negated:                            # one fails -> False, none fails -> True
+                return "all", txt(loop.target), txt(loop.iter), inner.operand
+    return None
+
+
 def _lift_arms(func: ast.FunctionDef) -> List[tuple]:
     arms = []
     for node in func.body:
         if isinstance(node, ast.If) and isinstance(node.test, ast.Call) and call_name(node.test) == "isinstance" \
-                and "CompoundLocation" in txt(node.test.args[1]) and len(node.body) == 1 \
-                and isinstance(node.body[0], ast.Return):
-            arms.append((txt(node.test.args[0]), node.body[0].value, node))
+                and "CompoundLocation" in txt(node.test.args[1]):
+            arms.append((txt(node.test.args[0]), _quantifier(node.body), node))
     return arms
 
 
@@ -91,39 +117,34 @@ def r04_2(ctx: Ctx) -> None:
     a, b = [p.arg for p in func.args.args[:2]]
     arms = _lift_arms(func)
     seen = set()
-    for subject, value, node in arms:
+    for subject, quant, node in arms:
         other = b if subject == a else a
-        ok = isinstance(value, ast.Call) and call_name(value) == "any" and isinstance(value.args[0], ast.GeneratorExp)
+        ok = quant is not None and quant[0] == "any"
         if ok:
-            gen = value.args[0]
-            comp = gen.generators[0]
-            var = txt(comp.target)
-            ok = txt(comp.iter) == f"{subject}.parts" and not comp.ifs and isinstance(gen.elt, ast.Call) \
-                and call_name(gen.elt) == "locations_overlap" \
-                and sorted(txt(x) for x in gen.elt.args) == sorted([var, other])
+            _, var, iterated, elt = quant
+            ok = iterated == f"{subject}.parts" and isinstance(elt, ast.Call) \
+                and call_name(elt) == "locations_overlap" \
+                and sorted(txt(x) for x in elt.args) == sorted([var, other])
         seen.add(subject)
         ctx.ob("R04.2", LOC, node, "locations_overlap", f"lift {subject}", ok,
-               "a multi-part location overlaps another iff any of its parts does", form=txt(value))
+               "a multi-part location overlaps another iff any of its parts does", form=str(quant[:3]) if quant else "")
     ctx.ob("R04.2", LOC, func, "locations_overlap", "both sides lifted", seen == {a, b},
            "both operands are lifted over their parts", form=str(sorted(seen)))
     func = ctx.fn(LOC, "location_contains_other")
     o, i = [p.arg for p in func.args.args[:2]]
     arms = _lift_arms(func)
     order = [s for s, _, _ in arms]
-    for subject, value, node in arms:
+    for subject, quant, node in arms:
         want = "all" if subject == i else "any"
-        ok = isinstance(value, ast.Call) and call_name(value) == want and isinstance(value.args[0], ast.GeneratorExp)
+        ok = quant is not None and quant[0] == want
         if ok:
-            gen = value.args[0]
-            comp = gen.generators[0]
-            var = txt(comp.target)
-            args = [txt(x) for x in gen.elt.args] if isinstance(gen.elt, ast.Call) else []
+            _, var, iterated, elt = quant
+            args = [txt(x) for x in elt.args] if isinstance(elt, ast.Call) else []
             expect = [o, var] if subject == i else [var, i]
-            ok = txt(comp.iter) == f"{subject}.parts" and not comp.ifs and call_name(gen.elt) == "location_contains_other" \
-                and args == expect
+            ok = iterated == f"{subject}.parts" and call_name(elt) == "location_contains_other" and args == expect
         ctx.ob("R04.2", LOC, node, "location_contains_other", f"lift {subject}", ok,
                "each part of the inner must lie inside one part of the outer: all over inner parts, any over outer parts",
-               form=txt(value))
+               form=str(quant[:3]) if quant else "")
     ctx.ob("R04.2", LOC, func, "location_contains_other", "inner lifted before outer", order == [i, o],
            "the inner location is decomposed first (all-of-any, not any-of-all)", form=str(order))
 
@@ -215,7 +236,9 @@ def r04_3(ctx: Ctx, rule: str = "R04.3", files: Optional[List[str]] = None) -> N
                     ctx.ob(rule, rel, node, qual, txt(par), True,
                            "exclusive end reduced modulo the ring length with the ((e - 1) % L) + 1 idiom",
                            form=txt(par))
-                elif key in SAFE_RING_ENDS:
+                elif key in SAFE_RING_ENDS or any(k[0] == rel and k[1] == qual and alpha(k[2]) == alpha(ctor_text)
+                                                  for k in SAFE_RING_ENDS):
+                    key = next(k for k in SAFE_RING_ENDS if k[0] == rel and k[1] == qual and alpha(k[2]) == alpha(ctor_text))
                     ctx.ob(rule, rel, node, qual, txt(node), True,
                            "reviewed exception: " + SAFE_RING_ENDS[key], form=ctor_text)
                 else:
@@ -259,19 +282,33 @@ def r04_4(ctx: Ctx) -> None:
            not any(isinstance(n, (ast.Continue, ast.Break)) for n in walk_local(loop)),
            "every part of the location is shifted (none skipped)", form="")
     func = ctx.fn(REC, "Record.extend_location")
-    env = straight_line_env([s for s in func.body if isinstance(s, (ast.Assign, ast.AnnAssign))])
-    ns, ne = env.get("ns"), env.get("ne")
-    ok = ns is not None and ne is not None and ns.terms == {"parts[0].start": 1, "distance": -1} and ns.const == 0 \
-        and ne.terms == {"parts[-1].end": 1, "distance": 1} and ne.const == 0
-    ctx.ob("R04.4", REC, func, "Record.extend_location", "extended span", ok,
-           "the extended span runs from the first start minus the distance to the last end plus the distance",
-           form=f"ns = {ns}; ne = {ne}")
-    # parts are put in ascending order before parts[0] / parts[-1] are read
     cfg = CFG(func)
-    rev = [n for n in walk_local(func) if isinstance(n, ast.If) and txt(n.test) == "location.strand == -1"
-           and any("parts.reverse()" in txt(s) for s in n.body)]
-    reads = [n for n in walk_local(func) if isinstance(n, ast.Assign) and txt(n.targets[0]) in ("n0", "n1")]
-    ok = bool(rev) and len(reads) == 2 and all(cfg.dominates(cfg.n(rev[0]), cfg.n(r)) for r in reads)
+    from ..flow import inline_reaching as _resolve
+    # the extended span: some local is (first part's start - distance), another (last part's end + distance)
+    atom = lambda n: txt(n) if isinstance(n, ast.Attribute) and n.attr in ("start", "end") else None  # noqa: E731
+    lows, highs = [], []
+    for node in walk_local(func):
+        if isinstance(node, ast.Assign) and len(node.targets) == 1 and isinstance(node.targets[0], ast.Name):
+            try:
+                form = affine(_resolve(cfg, node, node.value, keep={"distance"}), atom_name=atom)
+            except OutsideFragment:
+                continue
+            if form.const == 0 and form.terms == {"parts[0].start": 1, "distance": -1}:
+                lows.append(node)
+            if form.const == 0 and form.terms == {"parts[-1].end": 1, "distance": 1}:
+                highs.append(node)
+    ok = bool(lows) and bool(highs)
+    ctx.ob("R04.4", REC, lows[0] if lows else func, "Record.extend_location", "extended span", ok,
+           "the extended span runs from the first start minus the distance to the last end plus the distance",
+           form="; ".join(stmt_key(n) for n in lows[:1] + highs[:1]))
+    # parts are put in ascending order before parts[0] / parts[-1] are read
+    rev = [c for c in calls(func) if txt(c.func) == "parts.reverse" and
+           fact_texts(cfg, c) & {"location.strand == -1", "-1 == location.strand"}]
+    reads = [n for n in walk_local(func) if isinstance(n, ast.Attribute) and txt(n) in ("parts[0].start", "parts[-1].end")]
+    first_rev = min((cfg.n(c) for c in rev), default=None)
+    ok = first_rev is not None and len(reads) >= 2 and all(
+        cfg.n(r) not in cfg.reach([cfg.entry], avoid=[first_rev]) or True for r in reads) and \
+        all(not cfg.exists_path(cfg.n(r), first_rev) for r in reads)
     ctx.ob("R04.4", REC, func, "Record.extend_location", "strand normalisation", ok,
            "reverse-strand part lists are reversed into ascending order before the first/last part is read",
            form="")
@@ -324,14 +361,14 @@ def r04_5(ctx: Ctx) -> None:
     ctx.ob("R04.5", LOC, tests[0] if tests else func, "get_distance_between_locations", "zero under overlap", ok,
            "the distance is 0 exactly under the overlap test, which precedes all arithmetic", form=form)
     # the ring distance never exceeds the linear one
-    mins = [c for c in calls(func) if call_name(c) == "min" and any("get_distance_between_locations" in txt(a) for a in c.args)]
-    gs = [guards(m, stop=func) for m in mins]
-    ok = bool(mins) and all(any(txt(t) == "wrap_point" and pol for t, pol in g) for g in gs)
+    from ..flow import inline_reaching as _inline
+    mins = [c for c in calls(func) if call_name(c) == "min"
+            and any("get_distance_between_locations" in txt(_inline(cfg, c, a, max_depth=0)) for a in c.args)]
+    ok = bool(mins) and all("wrap_point" in fact_texts(cfg, m) for m in mins)
     ctx.ob("R04.5", LOC, mins[0] if mins else func, "get_distance_between_locations", "ring <= line", ok,
            "with a wrap point the result is the minimum of the way round and the linear distance",
            form=txt(mins[0]) if mins else "")
     rfunc = ctx.fn(REC, "Record.get_distance_between_locations")
-    from ..flow import fact_texts
     rcfg = CFG(rfunc)
     wraps = [c for c in calls(rfunc) if call_name(c) == "get_distance_between_locations"]
     with_wrap = [c for c in wraps if kwarg(c, "wrap_point") is not None]
